@@ -44,6 +44,8 @@ def run(ctx):
     ctx.floor("E8", 1)
     E.e12_cache_before_recompute(ctx)
     ctx.floor("E12", 1)
+    E.e15_lookup_table_keyed_by_own_key(ctx)
+    ctx.floor("E15", 1)
     # the table method and the extractor judge a rule by its key: the three forest_key forms build
     # (label of parent, labels of children in order, shifts) alike, and the shifts a derived rule
     # declares are position by position those of its own children (engine S, quick parameters)
